@@ -17,7 +17,8 @@ pub static DEF: CheckDef = CheckDef {
     run_case,
     rule: "histories of the forward/backward/update loop of a real Model: stacks of 1..3 dense layers (sizes 1..4, \
            thorough 1..5; activations none/relu/sigmoid/softmax; mse or cross-entropy) or 1..2 conv layers (strides \
-           1..2, conv->conv), input unbatched / batch 1 / batch 2..4 with the batch size changing between iterations, \
+           1..2, conv->conv); a quarter of the dense stacks mix in user-defined Layer implementations with 0 (activation \
+           only), 1 (gain) or 3 (weights, gain, bias) parameter arrays, input unbatched / batch 1 / batch 2..4 with the batch size changing between iterations, \
            learning rates {0, .01, .1, .5}, 2..12 iterations (thorough up to 50), a fresh random batch every \
            iteration, occasional double backward before update; family disturbed: the same loops with what user code may do between \
            iterations - a forward call on another batch whose result is abandoned (before the iteration's own forward, or between its \
@@ -38,7 +39,7 @@ fn families(t: Tier) -> Vec<(&'static str, u64)> {
     vec![("training", t.n(2_500, 250_000)), ("disturbed", t.n(1_500, 150_000))]
 }
 fn floors(_t: Tier) -> Vec<(&'static str, u64)> {
-    vec![("evaluations", 400), ("iterations_checked", 1_500), ("parameter_gradients_compared", 4_000), ("conv_histories", 60), ("batched_histories", 150), ("disturbed_iterations_checked", 600), ("frozen_parameters_checked", 150), ("iterations_after_abandoned_forward", 150), ("iterations_after_parameter_edit", 100), ("iterations_with_forward_before_update", 150)]
+    vec![("evaluations", 400), ("iterations_checked", 1_500), ("parameter_gradients_compared", 4_000), ("conv_histories", 60), ("batched_histories", 150), ("disturbed_iterations_checked", 600), ("frozen_parameters_checked", 150), ("iterations_after_abandoned_forward", 150), ("iterations_after_parameter_edit", 100), ("iterations_with_forward_before_update", 150), ("histories_with_user_defined_layers", 200)]
 }
 
 pub fn run_case(ctx: &mut Ctx, fam: &str, _k: u64, r: &mut Rng) {
@@ -142,6 +143,9 @@ pub fn run_case(ctx: &mut Ctx, fam: &str, _k: u64, r: &mut Rng) {
     if has_batch {
         ctx.count("batched_histories", 1);
     }
+    if spec.layers.iter().any(|l| l.is_user_defined()) {
+        ctx.count("histories_with_user_defined_layers", 1);
+    }
     ctx.hist("layers", &format!("{}x{}", if spec.is_conv() { "conv" } else { "dense" }, spec.layers.len()));
     ctx.hist("cost", if spec.ce { "cross_entropy" } else { "mse" });
     ctx.hist("lr", &spec.lr.to_string());
@@ -223,8 +227,9 @@ pub fn run_case(ctx: &mut Ctx, fam: &str, _k: u64, r: &mut Rng) {
         // the quotient's derivative) leave the range in which every term of the gradient is representable
         let mut x = it.input.clone();
         let mut saturated = false;
+        let offs = spec.param_offsets();
         for (li, l) in spec.layers.iter().enumerate() {
-            if let Some((pre, out)) = layer_ref(l, &pb[2 * li], &pb[2 * li + 1], &x) {
+            if let Some((pre, out)) = layer_ref_n(l, &pb[offs[li]..offs[li] + l.n_params()], &x) {
                 // (single precision: exp(+-20) squared still leaves every quotient term a normal number)
                 if !(pre.max_abs() <= if IS_F32 { 20.0 } else { 100.0 }) {
                     saturated = true;
